@@ -247,6 +247,30 @@ func runC06(c *core.Ctx) {
 		}
 	}
 
+	// (3b) dates far from today: bounds like 0001/01/01 and 9999/12/31 ("everything"), log days centuries away
+	{
+		r := c.Rng("far", 0)
+		far := []gen.Date{{Y: 1, M: 1, D: 1}, {Y: 1500, M: 3, D: 1}, {Y: 1677, M: 9, D: 20}, {Y: 1678, M: 1, D: 1}, {Y: 2021, M: 1, D: 5}, {Y: 2262, M: 4, D: 11}, {Y: 2262, M: 4, D: 12}, {Y: 2300, M: 1, D: 5}, {Y: 9999, M: 12, D: 31}}
+		log := c06Log(r, far, 14)
+		for bi := -1; bi < len(far); bi++ {
+			for ei := -1; ei < len(far); ei++ {
+				if bi < 0 && ei < 0 {
+					continue
+				}
+				it := item{log: log, layout: layoutDefault, today: gen.Date{Y: 2021, M: 2, D: 1}, cmd: c06Cmds[(bi+ei+20)%len(c06Cmds)], label: "far dates", zones: []string{c06Zones[(bi+2*ei+30)%4]}}
+				if bi >= 0 {
+					d := far[bi]
+					it.b, it.bs = &d, mk(d, layoutDefault)
+				}
+				if ei >= 0 {
+					d := far[ei]
+					it.e, it.es = &d, mk(d, layoutDefault)
+				}
+				items = append(items, it)
+			}
+		}
+	}
+
 	// (4) random logs and periods
 	for i := 0; i < c.N(150, 3000); i++ {
 		r := c.Rng("random", i)
